@@ -14,7 +14,7 @@ def render_nodes(addr, length, endian, nodes, cachable="NoCache", sibling_invali
     out = []
     names = ["N%d" % i for i in range(len(nodes))]
     for i, n in enumerate(nodes):
-        kw = dict(cachable=cachable, access="RW")
+        kw = dict(cachable=n.get("cachable", cachable), access="RW")
         if sibling_invalidators:
             kw["invalidators"] = [x for j, x in enumerate(names) if j != i]
         en = "BigEndian" if endian else "LittleEndian"
